@@ -6,8 +6,8 @@ from cmdline_check import run_cmdline_property
 
 def families(tier):
     if tier == "quick":
-        return D.adj_family(SEED + 190, 27, maxlen=5, budget=6000)
-    return D.adj_family(SEED + 190, 90, maxlen=6, budget=80000)
+        return D.adj_family(SEED + 190, 24, maxlen=5, budget=5000) + D.acmd_family(SEED + 191, 9, maxlen=4, budget=4000) + D.acmd_hole_defs(SEED)
+    return D.adj_family(SEED + 190, 90, maxlen=6, budget=80000) + D.acmd_family(SEED + 191, 45, maxlen=6, budget=80000) + D.acmd_hole_defs(SEED)
 
 
 def gen(rnd, d):
@@ -18,8 +18,17 @@ def run(v):
     big = D.adj_family(SEED + 1190, 36, maxlen=4, budget=10**9)
     for d in big:
         d["alpha"]["extras"] = ["unk", "dd", "help"]
+    def sig(m):
+        s = cmdline_sig.signature(m)
+        d = m.get("def_full") or {}
+        acmd = isinstance(d, dict) and any(f.get("kind") == "adj" and f["head"]["kind"] == "cmd" for f in d.get("named", []))
+        if acmd and s.get("expect") == "stdout:help" and s.get("got") == "stderr":
+            return {"rule": "help_hidden_by_failing_adjacent_command"}
+        if acmd:
+            s["shape"] = "adjacent_command"
+        return s
     cov = run_cmdline_property(v, families(v.tier), None, replay_cfg="MC_GroupLine_replay.cfg", module="MC_GroupLine",
-                               signature=cmdline_sig.signature, ledger_every=(6 if v.tier == "quick" else 1), trace_module="GroupLineTrace",
+                               signature=sig, ledger_every=(6 if v.tier == "quick" else 1), trace_module="GroupLineTrace",
                                driver={"defs": big, "n": 15000 if v.tier == "quick" else 300000, "gen": gen})
     cov["rule"] = ("group shapes {flag + 2..3 positionals, flag + two named arguments + optional switch} under one/opt/many among "
                    "0..2 other options and a trailing repeated positional; all lines up to maxlen: blocks at every position, "
